@@ -6,8 +6,11 @@ Open Scope Z_scope.
 
 Inductive tcase := CTri (mag v0 v1 v2 : V3) (exp : list V3).
 
+(* every generated case is representable: None counts as a failure *)
 Definition check_tcase (c : tcase) : bool :=
-  match c with CTri mag v0 v1 v2 exp => dlist_eqb v3eqb (make_triangle_x1000 mag v0 v1 v2) exp end.
+  match c with CTri mag v0 v1 v2 exp =>
+    match make_triangle_x1000 mag v0 v1 v2 with Some l => dlist_eqb v3eqb l exp | None => false end
+  end.
 
 Fixpoint tfailing_from (i : Z) (cs : list tcase) : list Z :=
   match cs with
